@@ -607,7 +607,13 @@ func runFail(x *core.Ctx, r *core.Rng) {
 	default:
 		script = "var s = stream|from().measurement('m')|log().prefix('in')\nvar a = s|log().prefix('bomb')\nvar b = s|eval(lambda: \"id\" * 2).as('y')\na|join(b).as('a', 'b')|log().prefix('out')"
 	}
-	sub := fmt.Sprintf("node failure at point %d of %d, shape %s\n%s", k, n, shapeKind, script)
+	// variant: the node is stuck in front of its k-th point until the edge that feeds it is
+	// full and its parent blocked handing over the next point - then it fails
+	blockedParent := r.Chance(0.5)
+	if blockedParent && n-k < 1400 {
+		k = n - 1400
+	}
+	sub := fmt.Sprintf("node failure at point %d of %d, shape %s, parent blocked on the full edge when the node fails: %v\n%s", k, n, shapeKind, blockedParent, script)
 	if !x.Announce(sub) {
 		return
 	}
@@ -644,6 +650,10 @@ func runFail(x *core.Ctx, r *core.Rng) {
 		x.Inconclusive(err.Error())
 		return
 	}
+	if blockedParent {
+		env.Rec.Sink("bomb").CloseGate()
+		env.Rec.Sink("bomb").Allow(k - 1)
+	}
 	wdone := make(chan int, 1)
 	go func() {
 		ok := 0
@@ -654,6 +664,23 @@ func runFail(x *core.Ctx, r *core.Rng) {
 		}
 		wdone <- ok
 	}()
+	if blockedParent {
+		bs, in := env.Rec.Sink("bomb"), env.Rec.Sink("in")
+		if bs.WaitLen(k-1, 20*time.Second) && bs.WaitBlocked(20*time.Second) {
+			// the k-th point waits at the node; let the backlog build up behind it
+			last, lastT := -1, time.Now()
+			for time.Since(lastT) < 60*time.Millisecond {
+				if l := in.Len(); l != last {
+					last, lastT = l, time.Now()
+				}
+				time.Sleep(time.Millisecond)
+			}
+			if in.Len() >= k+1000 {
+				x.Count("failures_with_a_blocked_parent", 1)
+			}
+		}
+		bs.Allow(1)
+	}
 	select {
 	case <-wdone:
 	case <-time.After(30 * time.Second):
